@@ -109,6 +109,15 @@ def run(ctx):
         sc = random_case(rng, 3)
         sc["real_stat"] = True
         scens.append(sc)
+    # make_statistic while the table has no complete row yet (the real loader raises there: O1), then further calls: an exception
+    # inside a locked region must leave the locks free -- no later call may block forever
+    for init in ("absent", "empty", "header"):
+        for calls in ([["s"], ["e", "s1", 3], ["e", "s2", 4]], [["e", "s1", 3], ["s"], ["s"]], [["s"], ["s"], ["e", "s1", 3]]):
+            for _k in range(ctx.scale(2, 10)):
+                sc = scen(calls, A.random_schedule(rng, 3, 30), init, None)
+                sc["real_stat"] = True
+                sc["complete"] = True
+                scens.append(sc)
     A.record(ctx, scens, A.parallel_check(scens, real=True, op_base=OP), "real Panoptica_Evaluator on 2x2 arrays", True, triples)
     ctx.layers.append({"layer": "real Panoptica_Evaluator (2x2 arrays) + real Panoptica_Statistic.from_file", "schedules": len(scens),
                        "exhaustive": False})
@@ -147,6 +156,19 @@ def run(ctx):
                           {"fork_rounds": case, "file": lines, "sequential": seq, "processes": rep})
     ctx.layers.append({"layer": "forked worker processes, barrier-synchronised rounds with colliding names (continue_file True/False)",
                        "runs": n_rounds, "exhaustive": False})
+    # ---- free-running threads sharing one aggregator and a real evaluator with class groups + decision threshold
+    n_thr = ctx.scale(2, 8)
+    for i in range(n_thr):
+        lines, seq, rep = A.thread_smoke()
+        ctx.count({"thread_smoke": i}, True)
+        ctx.bump("free-running threads, real evaluator with groups (final file only)")
+        probs = A.thread_smoke_problems(lines, seq, rep)
+        if probs:
+            ctx.violation("worker threads sharing one aggregator: " + "; ".join(probs[:3]),
+                          {"thread_smoke": True, "file": lines, "sequential": seq, "threads": rep})
+            break
+    ctx.layers.append({"layer": "free-running threads on one aggregator, real evaluator with class groups (single-instance + plain) and a decision "
+                                "threshold, rows = sequential run", "runs": n_thr, "exhaustive": False})
     # ---- extraction cross-check
     n, bad = common.coq_crosscheck("C16", triples[:60])
     ctx.crosschecked = n
@@ -167,6 +189,14 @@ def replay(path):
             lines, seq, rep = A.fork_rounds_run(d["fork_rounds"])
             probs = A.fork_rounds_problems(lines, seq, rep)
             print(f"attempt {attempt + 1}: continue_file={d['fork_rounds']['continue_file']} ->", probs or "final file equals a sequential run")
+            rc |= bool(probs)
+        return rc
+    if d.get("thread_smoke"):
+        rc = 0
+        for attempt in range(3):
+            lines, seq, rep = A.thread_smoke()
+            probs = A.thread_smoke_problems(lines, seq, rep)
+            print(f"attempt {attempt + 1}:", probs or "rows equal a sequential run")
             rc |= bool(probs)
         return rc
     if d.get("fork_smoke"):
